@@ -16,9 +16,10 @@ from checks.c03 import arg_repr
 A5, B5, S3, C5 = rfapi.A5, rfapi.B5, rfapi.S3, rfapi.C5
 ALPHA = [("open_rx_pipe", (0, A5)), ("open_rx_pipe", (0, B5)), ("open_rx_pipe", (0, S3)), ("open_rx_pipe", (1, A5)),
          ("close_rx_pipe", 0), ("close_rx_pipe", 1), ("open_tx_pipe", A5), ("open_tx_pipe", B5), ("open_tx_pipe", C5), ("open_tx_pipe", S3),
-         ("auto_ack=", 0x3F), ("auto_ack=", 0x3E), ("listen=", True), ("listen=", False),
+         ("auto_ack=", 0x3F), ("auto_ack=", 0x3E), ("set_auto_ack", (False, 0)), ("set_auto_ack", (True, 0)),
+         ("listen=", True), ("listen=", False),
          ("address_length=", 3), ("address_length=", 5)]
-LITE_ALPHA = [x for x in ALPHA if x[0] != "auto_ack=" and x != ("open_tx_pipe", S3)]
+LITE_ALPHA = [x for x in ALPHA if x[0] not in ("auto_ack=", "set_auto_ack") and x != ("open_tx_pipe", S3)]
 
 
 def end_probes(nrf, chip, air, seq, lite):
